@@ -91,7 +91,7 @@ let run () =
              (try
                List.iter (fun o ->
                  let c = parse_oop (split_ws o) in
-                 let (w', r) = ostep !w c in
+                 let (w', r) = vstep !w c in
                  w := w';
                  (match r, c with
                   | ORes (RPanic | RDeadlock), _ ->
